@@ -112,6 +112,8 @@ pub struct Run {
     pub case_timeout: Duration,
     pub wall_cap: Duration,
     pub quiet: bool,
+    /// child of another check (other build profile): report through the summary, never exit with a verdict
+    pub child: bool,
 }
 
 pub fn unrank(mut i: u64, dims: &[u64]) -> Vec<usize> {
@@ -165,6 +167,7 @@ impl Run {
                     }),
             ),
             quiet: false,
+            child: false,
         }
     }
     pub fn elapsed(&self) -> f64 {
@@ -739,6 +742,10 @@ impl Run {
         0
     }
     pub fn finish_and_exit(&self) -> ! {
+        if self.child {
+            println!("{}", self.summary_json());
+            std::process::exit(0);
+        }
         let m = FINISH_META.lock().unwrap().clone().unwrap_or_default();
         let code = self.finish(&m);
         std::process::exit(code);
